@@ -36,7 +36,9 @@ def run(ck):
     ck.rule("R4", "AsmBlock.split partitions lines and re-links constraints", floor=3)
     ck.rule("R5", "flow destinations become c_to constraints; split flow records the fall-through", floor=2)
 
-    fn = m.func("disasmEngine._dis_block")
+    from sa.prenorm import inline_helpers
+    # private helpers of the engine are part of _dis_block (an extracted `_add_next_constraint` is still _dis_block recording the continuation)
+    fn = inline_helpers(m.func("disasmEngine._dis_block"), m.methods("disasmEngine"), accept=lambda n_: n_.startswith("_") and not n_.startswith("__"))
     loops = [n for n in fn.body if isinstance(n, ast.While)]
     ck.need(loops, "_dis_block: decoding loop not found")
     loop = loops[0]
